@@ -320,13 +320,19 @@ func (v *Vue) resolveArgument(ctx VueContext, arg string) any {
 // callFunc calls a function from the FuncMap with optional VueContext as first argument.
 // If the function's first parameter is *VueContext, the context is passed automatically.
 // Otherwise, all provided arguments are passed directly.
-func (v *Vue) callFunc(ctx *VueContext, fn any, args ...any) (any, error) {
+func (v *Vue) callFunc(ctx *VueContext, fn any, args ...any) (result any, err error) {
 	fnVal := reflect.ValueOf(fn)
-	fnType := fnVal.Type()
-
-	if fnType.Kind() != reflect.Func {
+	if !fnVal.IsValid() || fnVal.Kind() != reflect.Func || fnVal.IsNil() {
 		return nil, fmt.Errorf("not a function")
 	}
+	fnType := fnVal.Type()
+
+	// A panic inside a template function fails the render instead of the process.
+	defer func() {
+		if r := recover(); r != nil {
+			result, err = nil, fmt.Errorf("panic: %v", r)
+		}
+	}()
 
 	// Check if first parameter is *VueContext
 	hasContextParam := false
